@@ -136,6 +136,8 @@ def cop(op):
         return "OZero %d" % op[1]
     if t == "copy":
         return "OCopy %d" % op[1]
+    if t == "hash":
+        return "OHash %d" % op[1]
     if t == "snapall":
         return "OSnapAll"
     raise ValueError(t)
